@@ -447,3 +447,42 @@ def check_merge_model(res, ctx, rng, idx_types, n):
                 continue
             res.count("merge_model_agreed")
             res.distinct.add(json.dumps([sc["nth"], sc["point"], sc["b"], mo]))
+
+
+# ---------------------------------------------------------------- calls issued while Merge is inside its unlocked phase
+
+def check_calls_during_merge(res, ctx, idx_types):
+    """Merge is paused right after its rotation / inside its scan; a second client then issues every kind of public
+    call, including a second Merge (must be refused with the merge-in-progress error and leave everything usable)."""
+    for idx in idx_types:
+        setup = ["put %02x%02x p%d:700" % (97 + j % 5, 97 + j % 5, j) for j in range(12)]
+        scs = []
+        for point, nth in (("merge.rotated", 1), ("merge.record", 3), ("merge.beforeMarker", 1)):
+            scs.append({"cfg": "4096 0 0 %d 0 4" % idx, "setup": setup, "a": "merge", "point": point, "nth": nth,
+                        "b": ["merge", "put 6161 x01", "get 6161", "del 6262", "keys", "fold", "stat", "sync", "bnew 0 7001009", "bput 6363 x02", "bcommit", "bdrop",
+                              "merge", "put 6464 x03"], "after": ["merge", "put 6565 x04", "dump"]})
+        outs, err = run_sched(ctx, scs)
+        if len(outs) < len(scs):
+            why = "the Go runtime reports `all goroutines are asleep - deadlock!`" if "all goroutines are asleep" in err else err[-300:]
+            res.violation("calls during a paused Merge (%s): the process died: %s" % (scs[len(outs)]["point"], why), {"scenario": scs[len(outs)], "stderr": err[:1500]})
+        for sc, o in zip(scs, outs):
+            res.evaluations += 1
+            res.count("sched:calls-during-merge")
+            name = "index %d, Merge paused at %s, second client runs %d calls" % (idx, sc["point"], len(sc["b"]))
+            replay = {"scenario": sc, "observed": {k: v for k, v in o.items() if k != "stacks"}}
+            res.distinct.add(json.dumps([idx, sc["point"], o.get("b"), o.get("b_status")]))
+            if o.get("error") or o.get("b_status") != "ran" or not o.get("reached"):
+                res.violation("%s: %s (second client %s; a call blocked behind a Merge that holds no lock is a deadlock)" % (
+                    name, o.get("error", "second client did not get through"), o.get("b_status")), replay)
+                continue
+            b = o.get("b") or []
+            bad = [(op, r) for op, r in zip(sc["b"], b) if (op == "merge" and r.split(" ")[0] != "err:merging") or
+                   (op != "merge" and (r.startswith(("err", "panic", "dead")) or r == "notfound"))]
+            if bad:
+                res.violation("%s: `%s` -> %s" % (name, bad[0][0], bad[0][1]), replay)
+                continue
+            if o.get("a", "").split(" ")[0] != "ok" or [x.split(" ")[0] for x in o.get("after", [])[:2]] != ["ok", "ok"]:
+                res.violation("%s: the paused Merge returned %s, the calls after it %s" % (name, o.get("a"), o.get("after")), replay)
+                continue
+            if o.get("live") != o.get("restart") or o.get("restart") != o.get("restart2"):
+                res.violation("%s: live %s, restart %s, second restart %s" % (name, o.get("live"), o.get("restart"), o.get("restart2")), replay)
